@@ -31,7 +31,7 @@ func NewSession(ctx context.Context, addr jid.JID, rw io.ReadWriter, features ..
 		}
 	})
 	var mask xmpp.SessionState
-	if wsConn, ok := rw.(*websocket.Conn); ok && wsConn.LocalAddr().(*websocket.Addr).Scheme == "wss" {
+	if isSecure(rw) {
 		mask |= xmpp.Secure
 	}
 	return xmpp.NewSession(ctx, addr.Domain(), addr, rw, mask, n)
@@ -47,10 +47,27 @@ func ReceiveSession(ctx context.Context, rw io.ReadWriter, features ...xmpp.Stre
 		}
 	})
 	var mask xmpp.SessionState
-	if wsConn, ok := rw.(*websocket.Conn); ok && wsConn.LocalAddr().(*websocket.Addr).Scheme == "wss" {
+	if isSecure(rw) {
 		mask |= xmpp.Secure
 	}
 	return xmpp.ReceiveSession(ctx, rw, mask, n)
+}
+
+// isSecure reports whether rw is a WebSocket connection that runs over TLS,
+// i.e. one whose location is a wss: URL.
+//
+// The local address of a connection is of no use here: for a connection that
+// we accepted it is the location, but for a connection that we opened it is the
+// origin, which says nothing about the transport (it is normally an http: or
+// https: URL, so a client's wss: connection went unnoticed, and an origin with
+// the wss: scheme made a clear text ws: connection count as secure).
+func isSecure(rw io.ReadWriter) bool {
+	wsConn, ok := rw.(*websocket.Conn)
+	if !ok {
+		return false
+	}
+	cfg := wsConn.Config()
+	return cfg != nil && cfg.Location != nil && cfg.Location.Scheme == "wss"
 }
 
 // NewClient performs the WebSocket handshake on rwc and then attempts to
